@@ -486,8 +486,93 @@ static void run_history(Case &c, Ctx &x, const std::vector<Op> &ops, const std::
     }
 }
 
+// ---------------------------------------------------------------------------------------------
+// C06, long holds: a note held only by the pedal for 7..9.9 simulated minutes (the statement quantifies over histories of up
+// to 10), then a note-on while idle channels exist. Time passes either as rendered audio in small blocks through the real-time
+// API, or tick-driven through the sequencer with a tempo multiplier (song time and real time both stay below 10 minutes).
+// ---------------------------------------------------------------------------------------------
+static void run_longhold(Case &c)
+{
+    Rng &r = c.rng;
+    Ctx x; x.chips = r.range(1, 2); x.emu = r.chance(0.5) ? 2 : 0; x.rate = 8000;
+    if(!open_instance(c, x, false)) return;
+    int rc = 0;
+    API("opn2_setRunAtPcmRate", rc = opn2_setRunAtPcmRate(x.d, 1));       // cheap audio: the chips are clocked at 8 kHz
+    int amode = r.range(-1, 2);
+    API("opn2_setChannelAllocMode", opn2_setChannelAllocMode(x.d, amode));
+    const bool seq = r.chance(0.5);
+    const int k1 = r.range(48, 72), k2 = r.range(48, 72) == k1 ? k1 + 1 : r.range(73, 84), prog = (int)r.pick((const int[]){0, 1, 12, 30, 81});
+    const int pedal = r.chance(0.8) ? 64 : 66;
+    double real_min = 7.0 + r.unit() * 2.9;
+    StateSnap before, after;
+    Op on; on.kind = OP_ON; on.ch = 0; on.a = k2; on.b = 100;
+    std::string trail;
+    int ret = 1;
+    if(!seq)
+    {
+        API("opn2_rt_patchChange", opn2_rt_patchChange(x.d, 0, (uint8_t)prog));
+        if(pedal == 66) { API("opn2_rt_noteOn", opn2_rt_noteOn(x.d, 0, (uint8_t)k1, 100)); API("opn2_rt_controllerChange", opn2_rt_controllerChange(x.d, 0, 66, 127)); }
+        else { API("opn2_rt_controllerChange", opn2_rt_controllerChange(x.d, 0, 64, 127)); API("opn2_rt_noteOn", opn2_rt_noteOn(x.d, 0, (uint8_t)k1, 100)); }
+        API("opn2_rt_noteOff", opn2_rt_noteOff(x.d, 0, (uint8_t)k1));
+        int block = (int)r.pick((const int[]){64, 128, 200, 256, 300, 512, 1000});
+        long frames = (long)(real_min * 60.0 * x.rate);
+        while(frames > 0) { int n = (int)std::min<long>(frames, block); int got = 0; API("opn2_generate", got = opn2_generate(x.d, n * 2, x.pcm)); (void)got; frames -= n; }
+        take_snapshot(x.d, x.tap, before);
+        API("opn2_rt_noteOn", ret = opn2_rt_noteOn(x.d, 0, (uint8_t)k2, 100));
+        take_snapshot(x.d, x.tap, after);
+        trail = vfmt("real-time: program %d, key %d held by CC%d only, %.2f min rendered in %d-frame blocks, then note-on key %d; %d chip(s), alloc mode %d", prog, k1, pedal, real_min, block, k2, x.chips, amode);
+        cover(vfmt("longhold|rt|block%d|cc%d|m%d", block, pedal, amode));
+    }
+    else
+    {
+        double mult = r.pick((const double[]){0.5, 0.5, 0.75, 1.0, 2.0});
+        double song_min = real_min * mult; if(song_min > 9.9) { song_min = 9.9; real_min = song_min / mult; }
+        Song sg; sg.format = 0; sg.division = 480; sg.running_status = false; sg.tracks.resize(1);
+        STrack &tr = sg.tracks[0]; int serial = 0;
+        auto push = [&](SEv e) { e.serial = serial++; tr.ev.push_back(e); };
+        uint64_t tk2 = (uint64_t)(song_min * 60.0 * 960.0);
+        push(mk_chan(0, 0xC0, prog));
+        if(pedal == 66) { push(mk_chan(0, 0x90, k1, 100)); push(mk_chan(240, 0xB0, 66, 127)); }
+        else { push(mk_chan(0, 0xB0, 64, 127)); push(mk_chan(0, 0x90, k1, 100)); }
+        push(mk_chan(480, 0x80, k1, 0));
+        push(mk_chan(tk2, 0x90, k2, 100));
+        push(mk_chan(tk2 + 960, 0x80, k2, 0));
+        push(mk_chan(tk2 + 960, 0xB0, pedal, 0));
+        push(mk_meta(tk2 + 1920, 0x2F, std::vector<uint8_t>()));
+        std::vector<uint8_t> file = serialize_song(sg);
+        { ExactBuf in(file); API("opn2_openData", rc = opn2_openData(x.d, in.p, (unsigned long)in.n)); }
+        if(rc != 0) { c.violation("oracle:C06:wellformed-file-rejected", opn2_errorInfo(x.d)); opn2_close(x.d); return; }
+        API("opn2_setTempo", opn2_setTempo(x.d, mult));
+        const double t2 = (double)tk2 / 960.0;   // song time of the second note-on (default tempo: 960 ticks per second)
+        double delay = 0; long guard = 0; bool taken = false;
+        while(guard++ < 100000)
+        {
+            double pos = 0; API("opn2_positionTell", pos = opn2_positionTell(x.d));
+            if(!taken && pos + delay * mult >= t2 - 1e-4) { take_snapshot(x.d, x.tap, before); taken = true; }
+            double nd = 0; API("opn2_tickEvents", nd = opn2_tickEvents(x.d, delay, 1e-6));
+            if(getenv("VERIF_TRACE")) fprintf(stderr, "[trace] pos=%.6f delay=%.6f nd=%.6f taken=%d t2=%.6f mult=%.2f atEnd=%d\n", pos, delay, nd, (int)taken, t2, mult, opn2_atEnd(x.d));
+            if(taken) { take_snapshot(x.d, x.tap, after); bool there = false; for(size_t ch = 0; ch < after.chip.size(); ch++) if(after.has_user(ch, 0, (unsigned)k2)) there = true; if(there || pos > t2 + 0.5) break; }
+            int e = 0; API("opn2_atEnd", e = opn2_atEnd(x.d)); if(e) break;
+            delay = nd;
+        }
+        bool there = false; for(size_t ch = 0; ch < after.chip.size(); ch++) if(after.has_user(ch, 0, (unsigned)k2)) there = true;
+        if(!taken || !there) { c.inconclusive = true; count("longhold_second_note_not_observed"); opn2_close(x.d); return; }
+        trail = vfmt("sequencer: program %d, key %d held by CC%d only, %.2f min of song time at tempo x%.2f (%.2f min real, tick-driven), then note-on key %d; %d chip(s), alloc mode %d", prog, k1, pedal, song_min, mult, real_min, k2, x.chips, amode);
+        cover(vfmt("longhold|seq|tempo%.2f|cc%d|m%d", mult, pedal, amode));
+    }
+    bool held_before = false;
+    for(size_t ch = 0; ch < before.chip.size(); ch++) if(before.has_user(ch, 0, (unsigned)k1)) held_before = true;
+    if(!held_before) c.violation("oracle:C06:long-hold:held-note-gone-before-the-note-on", "the pedal-held note no longer owns a chip channel before the second note-on; " + trail);
+    else c06_check(c, before, after, on, ret, false, false, "[long hold] " + trail, x, amode);
+    count("longhold_cases");
+    c.sig = "longhold" + trail.substr(0, 40);
+    c.sample(std::string("{\"mode\":\"c06-longhold\",\"history\":") + jstr(trail) + "}");
+    API("opn2_close", opn2_close(x.d));
+}
+
 static void run_case(Case &c)
 {
+    if(g_w.optnum("longhold", 0)) { run_longhold(c); return; }
     Rng &r = c.rng;
     std::string mode = g_w.optstr("mode", "c04");
     Ctx x;
